@@ -2,7 +2,9 @@ package univ
 
 import (
 	"fmt"
+	"go/token"
 	"go/types"
+	"hash/fnv"
 	"os"
 	"path/filepath"
 	"sort"
@@ -251,14 +253,59 @@ func checkPackage(u *gengotypes.Universe, p gengotypes.Package, files []string, 
 		}
 		return out
 	}
-	if got := strip(objNames(p.Types()), "_"); strings.Join(got, ",") != strings.Join(wantTypes, ",") {
-		return fmt.Errorf("%s: Types() = %v, package scope has %v", path, got, wantTypes)
+	// which accessor is the first one ever called on this package differs from package to package (an index built on first use
+	// must be built by every accessor)
+	accessors := []func() error{
+		func() error {
+			if got := strip(objNames(p.Types()), "_"); strings.Join(got, ",") != strings.Join(wantTypes, ",") {
+				return fmt.Errorf("%s: Types() = %v, package scope has %v", path, got, wantTypes)
+			}
+			return nil
+		},
+		func() error {
+			if got := strip(objNames(p.Constants()), "_"); strings.Join(got, ",") != strings.Join(wantConsts, ",") {
+				return fmt.Errorf("%s: Constants() = %v, package scope has %v", path, got, wantConsts)
+			}
+			return nil
+		},
+		func() error {
+			if got := strip(objNames(p.Functions()), "_", "init"); strings.Join(got, ",") != strings.Join(wantFuncs, ",") {
+				return fmt.Errorf("%s: Functions() = %v, package scope has %v", path, got, wantFuncs)
+			}
+			return nil
+		},
+		func() error {
+			for _, n := range wantConsts {
+				if p.Constant(n) != scope.Lookup(n) {
+					return fmt.Errorf("%s: Constant(%q) (asked before anything else) is not the package-scope object", path, n)
+				}
+			}
+			return nil
+		},
+		func() error {
+			for _, n := range wantTypes {
+				if p.Type(n) != scope.Lookup(n) {
+					return fmt.Errorf("%s: Type(%q) (asked before anything else) is not the package-scope object", path, n)
+				}
+			}
+			return nil
+		},
+		func() error {
+			for _, n := range wantFuncs {
+				if p.Function(n) != scope.Lookup(n) {
+					return fmt.Errorf("%s: Function(%q) (asked before anything else) is not the package-scope object", path, n)
+				}
+			}
+			return nil
+		},
 	}
-	if got := strip(objNames(p.Constants()), "_"); strings.Join(got, ",") != strings.Join(wantConsts, ",") {
-		return fmt.Errorf("%s: Constants() = %v, package scope has %v", path, got, wantConsts)
-	}
-	if got := strip(objNames(p.Functions()), "_", "init"); strings.Join(got, ",") != strings.Join(wantFuncs, ",") {
-		return fmt.Errorf("%s: Functions() = %v, package scope has %v", path, got, wantFuncs)
+	h := fnv.New32a()
+	h.Write([]byte(path + os.Getenv("VT_SEED")))
+	first := int(h.Sum32() % uint32(len(accessors)))
+	for i := range accessors {
+		if err := accessors[(first+i)%len(accessors)](); err != nil {
+			return fmt.Errorf("%w (accessor #%d of 6 was the first one called on the package)", err, first)
+		}
 	}
 	for _, n := range wantTypes {
 		if p.Types()[n] != scope.Lookup(n) || p.Type(n) != scope.Lookup(n) {
@@ -344,13 +391,26 @@ func checkPackage(u *gengotypes.Universe, p gengotypes.Package, files []string, 
 			return fmt.Errorf("%s: SourceDir() = %q, its files are in %q", path, p.SourceDir(), dir)
 		}
 		for _, f := range p.Files() {
-			lp := u.LocateInPackage(f.Package)
-			if lp != p {
-				got := "<nil>"
-				if lp != nil {
-					got = lp.Pkg().Path()
+			// any position of the file: its first and last byte (licence header, final newline), comments, the package clause, declarations
+			poss := []token.Pos{f.Package, f.FileStart, f.FileStart + (f.FileEnd-f.FileStart)/2}
+			if f.FileEnd > f.FileStart {
+				poss = append(poss, f.FileEnd-1)
+			}
+			if len(f.Comments) > 0 {
+				poss = append(poss, f.Comments[0].Pos(), f.Comments[len(f.Comments)-1].End()-1)
+			}
+			if len(f.Decls) > 0 {
+				poss = append(poss, f.Decls[0].Pos(), f.Decls[len(f.Decls)-1].End()-1)
+			}
+			for _, pos := range poss {
+				lp := u.LocateInPackage(pos)
+				if lp != p {
+					got := "<nil>"
+					if lp != nil {
+						got = lp.Pkg().Path()
+					}
+					return fmt.Errorf("%s: LocateInPackage(%s) = %s", path, p.FileSet().Position(pos), got)
 				}
-				return fmt.Errorf("%s: LocateInPackage(position in %s) = %s", path, p.FileSet().Position(f.Package).Filename, got)
 			}
 		}
 	}
